@@ -12,7 +12,7 @@
 (*   gen   [1..nb -> SUBSET X]     temporaries defined anywhere in the block   *)
 (*   X     universe of tracked temporaries                                     *)
 (*   entry SUBSET X                temporaries defined on function entry       *)
-EXTENDS Naturals, FiniteSets
+EXTENDS Naturals, FiniteSets, FiniteSetsExt
 
 Top(g, b) == IF b = 1 THEN g.entry ELSE g.X
 
@@ -21,10 +21,8 @@ InitIn(g) == [b \in 1..g.nb |-> Top(g, b)]
 Out(g, In, p) == In[p] \cup g.gen[p]
 
 (* one evaluation of the transfer equation at block b *)
-NewIn(g, In, b) ==
-  LET ps == g.pred[b]
-  IN IF ps = {} THEN Top(g, b)
-     ELSE {t \in Top(g, b) : \A p \in ps : t \in In[p] \/ t \in g.gen[p]}
+NewIn(g, In, b) ==      \* Top(b) \cap the Out sets of all predecessors (set operations, not a filter: TLC does them natively)
+  FoldSet(LAMBDA p, acc : acc \cap (In[p] \cup g.gen[p]), Top(g, b), g.pred[b])
 
 (* the worklist after evaluating b *)
 NewWork(g, In, work, b) ==
